@@ -1208,6 +1208,14 @@ func (u *Unit) execNext(st *State, x *ssa.Next) Value {
 	// ok => k in dom, not visited ; !ok => every key of dom visited
 	u.assume(st, Implies(okc, And(Neq(m.T, TNil), Select(dom, k), Not(Select(vis, k)))), "range-next")
 	u.assume(st, Implies(Not(okc), Or(Eq(m.T, TNil), Term{fmt.Sprintf("(forall ((k %s)) (! (=> (select %s k) (select %s k)) :pattern ((select %s k))))", ks, dom.S, vis.S, dom.S), SBool})), "range-done")
+	// exhaustion + "visited is a subset of the key set" (an invariant the unit states where it needs it) = the two sets
+	// are EQUAL: the extensionality instance is handed to the solver explicitly (sums over `visited` then equal sums over
+	// the map; z3 found it only at final check, i.e. never in large units)
+	{
+		domP := Ite(Eq(m.T, TNil), emptySet(ks), dom)
+		sub := Term{fmt.Sprintf("(forall ((k %s)) (! (=> (select %s k) (select %s k)) :pattern ((select %s k))))", ks, vis.S, domP.S, vis.S), SBool}
+		u.assume(st, Implies(Not(okc), Implies(sub, Eq(vis, domP))), "range-done-extensionality")
+	}
 	val, _ := u.mapLookup(view, mt, m.T, k)
 	if sc, isSc := val.(Sc); isSc {
 		val = Sc{u.ctx.Named("rv", sc.T), sc.Typ}
